@@ -456,7 +456,34 @@ func (gen *generator) irFuncDecl(new *ir.Func, old *ast.FuncDecl) error {
 	}
 	new.Metadata = md
 	// Function header.
-	return gen.irFuncHeader(new, old.Header())
+	if err := gen.irFuncHeader(new, old.Header()); err != nil {
+		return errors.WithStack(err)
+	}
+	// The parameters of function definitions are validated when the local
+	// identifiers of the function body are indexed.
+	return validateParamIdents(new)
+}
+
+// validateParamIdents validates the local identifiers of the parameters of the
+// given function declaration; parameter names must be unique and explicit
+// parameter IDs must match the IDs assigned by position.
+func validateParamIdents(f *ir.Func) error {
+	names := make(map[string]bool)
+	want := int64(0)
+	for _, param := range f.Params {
+		if param.IsUnnamed() {
+			if got := param.ID(); got != 0 && got != want {
+				return errors.Errorf("invalid local ID in function %q, expected %s, got %s", f.Ident(), enc.LocalID(want), enc.LocalID(got))
+			}
+			want++
+			continue
+		}
+		if names[param.LocalName] {
+			return errors.Errorf("local identifier %q already present in function %q", enc.LocalName(param.LocalName), f.Ident())
+		}
+		names[param.LocalName] = true
+	}
+	return nil
 }
 
 // --- [ Function definitions ] ------------------------------------------------
